@@ -13,10 +13,16 @@ Round-4 generalisation (classes 11-20 of the builder brief): besides the `sessio
 operands and the caller's very list object handed over again) every sub-check draws, in a few percent of its cases each: numpy scalars, mixed index resolutions,
 intraday / 1us-apart stamps, unsorted short operands, operands on one shared index object, one object in two places, numeric column names, int64 cells beyond 2**53,
 the three ways of writing a call, a list of scalars as long as the series next to it, an empty companion list. The oracle is the same dictionary model throughout.
+
+Second generalisation pass (classes 21-29): zone-aware indices (every index of a case localized to one zone; the result must be zone-aware and hold the same instants, computed with
+zoneinfo), cells / scalars closer to one another than np.isclose's tolerances (1e-9, 1.000000001, tiny divisors), two Series that are views of ONE buffer with different strides,
+policies left out of the call (= the documented default 'ij'), the column label 0, and - in `session` - a cell of an operand written in place by the caller between two calls
+(the same object with new content: later calls are judged by the new content). Classes 22, 23, 24 do not apply (see ASSUMPTIONS).
 """
 import datetime
 import json
 import math
+import zoneinfo
 
 from hypothesis import strategies as st
 
@@ -60,6 +66,20 @@ ASSUMPTIONS = [
     'object identity: operands may share one index object, and one object may take two places of the operand list (op(a, a), op([a, b, a])); the oracle judges them as the equal values they are',
     'a side may be an empty list next to a list with all the operands (op([a, b], []), op([], [a, b])) for add_/mul_/min_/max_/df_*; not for sub_/div_, where an empty side leaves nothing to '
     'subtract / divide by (the library raises TypeError; outside "tuples of 2..4 operands"). A list of k scalars next to a timeseries of k rows is k scalar operands (lists reduce left to right)',
+    'zone-aware cases: every index of the case is the wall-clock axis localized to ONE of Asia/Tokyo, America/New_York, Asia/Kolkata (the stamps used - midnight, noon, midnight + 1us - exist once '
+    'in each zone); demanded: a non-empty result index is zone-aware and holds exactly the instants of the join (compared as UTC instants computed with zoneinfo); the zone OBJECT of the result and '
+    'the zone-awareness of an EMPTY result index are not asserted; operands in different zones, or naive next to aware (which instants such stamps share is not fixed by the statement), are not generated',
+    'values within a tolerance: one case in ten (more for div_ and the comparisons) draws its float cells / scalars from {NaN, 0.0, +-1e-9, 1.0, 1.000000001, 2.5, 2.5000000001}: the statement says '
+    'a[t] op b[t], so 1.0 < 1.000000001 is True, 1.0 / 1e-9 is 1e9 (only an exact zero divisor gives NaN) and 1e-9 counts as data for df_count; the oracle tolerances (1e-12) stay far below these gaps',
+    'same buffer, other strides: two short Series of m rows built (copy=False) on ONE numpy buffer of 2m cells, a = buf[:m] and b = buf[::2][:m] (same address, dtype, shape; other strides), on the '
+    'same, a shifted or another window index; Series only and not in sessions (kept small)',
+    'a policy that is left out of the call is judged as the documented default of the signature, "ij" (add_(a, b, join="ij", method=None, columns="ij"); docstrings: "By default, if columns = ij"); '
+    'df_sum/df_mean/df_count: "oj", as before',
+    'session, in-place edits: between two calls the caller may write ONE cell (same dtype, another value) into an operand of the previous call with .iloc; the object stays the same object and every '
+    'later call is judged by its new content (the statement holds per call, whatever was computed before); the lists of earlier calls are not handed over again after an edit',
+    'classes 22-24 of the brief do not apply: 22 (the operators tabulate nothing - every answer is inside the domain; division by zero is fixed by the statement), 23 (no renames / assignments are '
+    'given to the operators), 24 (no patterns, partials or other option-carrying objects among the arguments). Class 29: the falsy scalar 0 / 0.0 (falsy_scalar), the column label 0 '
+    '(falsy_column_label), empty operands and empty companion lists were there already; \'\' / None / False as column labels are not generated (None is "no column" for df_column)',
     'classes of the brief that do not apply: 16 (no user function is handed to the operators), 20 (lists of fill methods are not part of the statement), the decorator-object and exception-'
     'formatting parts of 11 / 17, arrays / tuples as operands (18: the quantifier has Series, frames, scalars and lists of them), duplicate labels (15, see above)',
 ]
@@ -90,6 +110,9 @@ UNITS = {'d': ['s', 'ms', 'us', 'ns'], 'h12': ['s', 'ms', 'us', 'ns'], 'us': ['u
 COLPOOLS = [['a', 'b', 'c', 'd'], ['a', 'ab', 'b', 'abc'],     # the second pool: names that are prefixes of one another
             [1, 0, 2, 3]]                                      # the third: numbers only, labels that differ from the positions
 BIG = 2 ** 53                     # ints from here on are not all exact as float64
+TZS = ['Asia/Tokyo', 'America/New_York', 'Asia/Kolkata']       # +09:00; -05:00 / -04:00 (the long daily range crosses both changes of 2000); +05:30
+NEAR = [1e-9, -1e-9, 1.000000001, 2.5000000001]                 # cells / scalars that np.isclose (rtol 1e-5, atol 1e-8) takes for 0.0, 1.0, 2.5
+_TZ = [None]                      # the time zone of the case that is running (spec['tz']): every index of the case is localized to it
 
 
 def _lab(p):
@@ -110,6 +133,8 @@ ANY = _Any()
 
 _fcell = st.sampled_from(['nan', 0.0, 0.0, -1.5, 1.0, 2.0, 2.5, 'nan', 1.0, -0.0])
 _fcell_x = st.sampled_from(['nan', 0.0, -1.5, 1.0, 2.5, 0.1, 0.1, 1e16, 1.0, -0.0])    # with values that are not exact in float32 / absorb small addends
+_fcell_near = st.sampled_from(['nan', 0.0, 1e-9, 1.0, 1.000000001, 2.5, 2.5000000001, -1e-9, 0.0, 'nan', 1e-9, 1.000000001, 1.0])     # pairs closer than any "robust" tolerance
+_scalar_near = st.sampled_from([0, 1e-9, 1, 1.000000001, 2.5, -1e-9, 'nan', 1.0])
 _icell = st.integers(-3, 6).map(lambda i: 0 if i == -3 else i)   # 0 twice as likely
 _scalar = st.sampled_from([0, 0.0, 1, 2, -1, 2.5, -1.5, 'nan', 3])
 _scalar_x = st.sampled_from([0, 0.1, 1, 2, -1, 2.5, 1e16, 'nan', 3])
@@ -233,7 +258,7 @@ def _index_attrs(draw, o, ctx, anchor):
 def _ts(draw, kind, prev, ctx, cols=None, cellmode=None):
     """kind 's' or 'f'; prev: operands drawn so far; cellmode 'f' floats, 'i' ints, 'e' float exponents, 'ei' int exponents"""
     cm = cellmode or ('i' if ctx.get('bigint') else draw(st.sampled_from(['f', 'f', 'f', 'i'])))
-    cell = {'f': _fcell_x if ctx['inexact'] else _fcell, 'i': _icell_big if ctx.get('bigint') else _icell, 'e': _exp_f, 'ei': _exp_i}[cm]
+    cell = {'f': _fcell_near if ctx.get('near') else _fcell_x if ctx['inexact'] else _fcell, 'i': _icell_big if ctx.get('bigint') else _icell, 'e': _exp_f, 'ei': _exp_i}[cm]
     dt = 'i' if cm in ('i', 'ei') else 'f'
     f = _first_ts(prev)
     # identity: this operand is built on the very index OBJECT of an earlier operand (group 1: the first timeseries, group 2: the first long one)
@@ -283,12 +308,16 @@ def _ctx(draw, bigint_ok=False):
     c['bigint'] = bigint_ok and draw(st.integers(0, 11)) == 11
     if c['bigint']:
         c['inexact'] = False
+    # classes 21-29 of the brief
+    c['tz'] = TZS[draw(st.integers(0, 2))] if draw(st.integers(0, 11)) == 11 else None      # every index of the case zone-aware, in one zone
+    c['near'] = not c['bigint'] and draw(st.integers(0, 9)) == 9                               # cells / scalars within 1e-8 / 1e-5 relative of one another
+    c['views'] = draw(st.integers(0, 7)) == 7                                                  # two Series cut out of ONE buffer with different strides
     return c
 
 
 def _c(draw, ctx):
     """a scalar operand: a Python number or (one in four) the numpy scalar of the same value"""
-    o = dict(k='c', v=draw(_scalar_big if ctx.get('bigint') else _scalar_x if ctx['inexact'] else _scalar))
+    o = dict(k='c', v=draw(_scalar_big if ctx.get('bigint') else _scalar_near if ctx.get('near') else _scalar_x if ctx['inexact'] else _scalar))
     if draw(st.integers(0, 3)) == 3:
         o['raw'] = 'np'
     return o
@@ -311,6 +340,59 @@ def _identity(draw, ops, ctx):
     ops[i]['obj'] = 1
     ops[j] = json.loads(json.dumps(ops[i]))
     return ops
+
+
+def _views(draw, ops, ctx, series_slots_only=False):
+    """same buffer, other strides: a short Series a of m rows and a second Series b of m rows are cut out of ONE numpy buffer of 2m cells, a = buf[:m], b = buf[::2][:m]:
+    same address, dtype and shape, different strides (b[i] is a[2i] in the first half, cells of its own after that). b takes the place of another operand"""
+    if not ctx.get('views') or len(ops) < 2:
+        return ops
+    cand = [i for i, o in enumerate(ops) if o['k'] == 's' and 'idx' in o and len(o['idx']) >= 2 and not o.get('ord') and not o.get('obj')]
+    if not cand:
+        return ops
+    i = draw(st.sampled_from(cand))
+    slots = [j for j, o in enumerate(ops) if j != i and not o.get('obj') and not o.get('six') and (o['k'] == 's' or not series_slots_only)]
+    if not slots:
+        return ops
+    j = draw(st.sampled_from(slots))
+    a = ops[i]
+    m = len(a['idx'])
+    cell = (_icell_big if ctx.get('bigint') else _icell) if a['dt'] == 'i' else (_fcell_near if ctx.get('near') else _fcell_x if ctx['inexact'] else _fcell)
+    buf = list(a['vals']) + [draw(cell) for _ in range(m)]
+    how = draw(st.sampled_from(['same', 'same', 'window', 'shift']))
+    idx = list(a['idx'])
+    if how == 'window':
+        start = draw(st.integers(0, SHORT_N - m))
+        idx = list(range(start, start + m))
+    elif how == 'shift':
+        sh = [d for d in (-1, 1, 2) if 0 <= a['idx'][0] + d and a['idx'][-1] + d < SHORT_N]
+        if sh:
+            d = draw(st.sampled_from(sh))
+            idx = [t + d for t in a['idx']]
+    b = dict(k='s', idx=idx, dt=a['dt'], vals=buf[::2][:m], buf=buf, step=2)
+    if 'unit' in a:
+        b['unit'] = a['unit']
+    a['buf'], a['step'] = buf, 1
+    ops[j] = b
+    return ops
+
+
+def _omit(draw, join, columns):
+    """a policy left out of the call is the documented default 'ij' (add_(a, b, join='ij', method=None, columns='ij')): -> join, columns, names left out"""
+    k = draw(st.integers(0, 24))
+    if k == 24:
+        return 'ij', 'ij', ['join', 'columns']
+    if k == 23:
+        return 'ij', columns, ['join']
+    if k == 22:
+        return join, 'ij', ['columns']
+    return join, columns, []
+
+
+def _style_for(draw, omit):
+    """the everything-positional spelling needs every policy"""
+    s = _style(draw)
+    return 'kw' if omit and s == 'pos' else s
 
 
 def _style(draw):
@@ -369,7 +451,7 @@ def _small_ts(draw, ctx, k):
     """a short Series / frame with exactly k rows (a window of the axis)"""
     start = draw(st.integers(0, SHORT_N - k))
     idx = list(range(start, start + k))
-    cell = _fcell_x if ctx['inexact'] else _fcell
+    cell = _fcell_near if ctx.get('near') else _fcell_x if ctx['inexact'] else _fcell
     if draw(st.booleans()):
         return dict(k='s', idx=idx, dt='f', vals=[draw(cell) for _ in idx])
     cols = _cols(draw, ctx)
@@ -391,11 +473,14 @@ def _arith_case(draw):
     op = draw(st.sampled_from(['add_', 'sub_'] if ctx['bigint'] else ['add_', 'sub_', 'mul_', 'div_']))
     join = _inner(draw) if ctx['bigint'] else draw(_policy)
     columns = _inner(draw) if ctx['bigint'] else draw(_policy)
+    join, columns, omit = _omit(draw, join, columns)
+    if op == 'div_' and draw(st.integers(0, 7)) == 7:
+        ctx['near'] = True                       # divisors of 1e-9: not zero, so the quotient is 1e9 times the numerator and not NaN
     form = draw(st.sampled_from(['bin', 'bin', 'list', 'list', 'split']))
     if form == 'list' and op in ('sub_', 'div_'):
         form = 'split'
     profile = draw(st.sampled_from(['mixed', 'mixed', 'frames']))
-    base = dict(op=op, join=join, columns=columns, axis=ctx['axis'], style=_style(draw))
+    base = dict(op=op, join=join, columns=columns, axis=ctx['axis'], style=_style_for(draw, omit), tz=ctx['tz'], omit=omit)
     special = 0 if ctx['bigint'] else draw(st.integers(0, 24))
     if special >= 24:
         # a LIST OF SCALARS exactly as long as the timeseries next to it (1-3 rows): still a list of operands, not a vector
@@ -403,7 +488,7 @@ def _arith_case(draw):
         t = _small_ts(draw, ctx, k)
         return dict(base, form='split', lhs=[t], rhs=[_c(draw, ctx) for _ in range(k)], lhs_list=draw(st.booleans()), rhs_list=True, special='scalar_list')
     if form == 'bin':
-        ops = _identity(draw, _ensure_ts(draw, _operands(draw, 2, ctx, profile=profile), ctx), ctx)
+        ops = _views(draw, _identity(draw, _ensure_ts(draw, _operands(draw, 2, ctx, profile=profile), ctx), ctx), ctx)
         if op == 'div_' and ops[0]['k'] != 'c' and draw(st.integers(0, 5)) == 0:
             ops[1] = dict(k='c', v=draw(st.sampled_from([0, 0.0])))          # the scalar zero divisor
             if draw(st.integers(0, 3)) == 3:
@@ -412,7 +497,7 @@ def _arith_case(draw):
     n = draw(st.integers(2, 4))
     # the column sets of the frames of one reduced list are free: lists whose intermediate result has fewer than two columns
     # under columns='ij' are generated and taken out by KNOWN['narrow_intermediate'] (counted as excluded_known)
-    ops = _identity(draw, _ensure_ts(draw, _operands(draw, n, ctx, profile=profile), ctx), ctx)
+    ops = _views(draw, _identity(draw, _ensure_ts(draw, _operands(draw, n, ctx, profile=profile), ctx), ctx), ctx)
     if special >= 21 and op in ('add_', 'mul_'):
         return _empty_side(draw, dict(base), ops)
     if form == 'list':
@@ -430,9 +515,12 @@ def _cmp_case(draw):
     op = draw(st.sampled_from(['gt_', 'ge_', 'lt_', 'le_'] if ctx['bigint'] else ['pow_', 'pow_', 'gt_', 'ge_', 'lt_', 'le_']))
     join = _inner(draw) if ctx['bigint'] else draw(_policy)
     columns = draw(_policy)
-    base = dict(op=op, join=join, columns=columns, axis=ctx['axis'], style=_style(draw))
+    join, columns, omit = _omit(draw, join, columns)
+    base = dict(op=op, join=join, columns=columns, axis=ctx['axis'], style=_style_for(draw, omit), tz=ctx['tz'], omit=omit)
+    if op != 'pow_' and not ctx['bigint'] and draw(st.integers(0, 7)) == 7:
+        ctx['near'] = True                       # 1.0 against 1.000000001: different numbers, one of them is the greater
     if op != 'pow_':
-        ops = _identity(draw, _ensure_ts(draw, _operands(draw, 2, ctx, profile=draw(st.sampled_from(['mixed', 'mixed', 'frames']))), ctx), ctx)
+        ops = _views(draw, _identity(draw, _ensure_ts(draw, _operands(draw, 2, ctx, profile=draw(st.sampled_from(['mixed', 'mixed', 'frames']))), ctx), ctx), ctx)
         return dict(base, a=ops[0], b=ops[1])
     a = _operands(draw, 1, ctx)[0]
     kb = draw(st.sampled_from(['c', 's', 's', 'f']))
@@ -456,11 +544,12 @@ def _minmax_case(draw):
     op = draw(st.sampled_from(['min_', 'max_']))
     join = _inner(draw) if ctx['bigint'] else draw(_policy)
     columns = draw(_policy)
+    join, columns, omit = _omit(draw, join, columns)
     form = draw(st.sampled_from(['bin', 'list', 'split']))
     n = 2 if form == 'bin' else draw(st.integers(2, 4))
     cols = _cols(draw, ctx)
-    ops = _identity(draw, _ensure_ts(draw, _operands(draw, n, ctx, cols_fixed=cols), ctx, cols=cols), ctx)
-    base = dict(op=op, join=join, columns=columns, axis=ctx['axis'], style=_style(draw))
+    ops = _views(draw, _identity(draw, _ensure_ts(draw, _operands(draw, n, ctx, cols_fixed=cols), ctx, cols=cols), ctx), ctx)
+    base = dict(op=op, join=join, columns=columns, axis=ctx['axis'], style=_style_for(draw, omit), tz=ctx['tz'], omit=omit)
     if form == 'bin':
         return dict(base, form=form, lhs=[ops[0]], rhs=[ops[1]], lhs_list=False, rhs_list=False)
     if not ctx['bigint'] and draw(st.integers(0, 24)) >= 23:
@@ -487,10 +576,10 @@ def _agg_case(draw):
             ops.append(_ts(draw, 'f', ops, ctx, cols))
         else:
             ops.append(_ts(draw, 's', ops, ctx))
-    ops = _identity(draw, ops, ctx)
+    ops = _views(draw, _identity(draw, ops, ctx), ctx, series_slots_only=True)
     form = draw(st.sampled_from(['list', 'list', 'split']))
     # 'kw': no policy is passed (as documented); 'explicit': the default policies are spelled out (join / columns = oj or outer); 'pos'; 'named'
-    base = dict(op=op, axis=ctx['axis'], style=draw(st.sampled_from(['kw', 'kw', 'kw', 'kw', 'explicit', 'explicit', 'pos', 'named'])),
+    base = dict(op=op, axis=ctx['axis'], tz=ctx['tz'], style=draw(st.sampled_from(['kw', 'kw', 'kw', 'kw', 'explicit', 'explicit', 'pos', 'named'])),
                 join=draw(st.sampled_from(['oj', 'outer'])), columns=draw(st.sampled_from(['oj', 'outer'])))
     if draw(st.integers(0, 24)) >= 23:
         return _empty_side(draw, dict(base), ops)
@@ -511,14 +600,17 @@ def _cellv(v):
 _SESSION = [None]      # while a session case runs: operand spec (json) -> the ONE object built for it, shared by all calls of the session
 _IDX = {}              # (group, stamps, resolution, row order) -> the ONE index object of the operands of that group (per case / per session)
 _OBJ = {}              # operand spec (json) -> the ONE object of an operand that takes several places of the operand list (per case)
+_BUF = {}              # (cells (json), dtype) -> the ONE numpy buffer that the operands carrying these cells as 'buf' are views of (per case)
 
 
 def _begin(spec):
     """start of a case (a session is ONE case)"""
     if _SESSION[0] is None:
         _AX[0] = spec.get('axis') or 'd'
+        _TZ[0] = spec.get('tz')
         _IDX.clear()
         _OBJ.clear()
+        _BUF.clear()
         _quiet()
 
 
@@ -573,6 +665,8 @@ def _build_index(o, order):
 
     def fresh():
         idx = pd.DatetimeIndex([AXES[_AX[0]][o['idx'][r]] for r in order])
+        if _TZ[0]:
+            idx = idx.tz_localize(_TZ[0])          # the wall-clock stamps of the axis, in the zone of the case
         return idx.as_unit(o['unit']) if o.get('unit') else idx
     if not o.get('six'):
         return fresh()
@@ -593,6 +687,15 @@ def _build_fresh(o):
     order = _row_order(len(o['idx']), o.get('ord'))
     idx = _build_index(o, order)
     dtype = 'int64' if o['dt'] == 'i' else 'float64'
+    if o['k'] == 's' and o.get('buf') is not None and not _is_unsorted(o):
+        key = (json.dumps(o['buf']), dtype)
+        if key not in _BUF:
+            _BUF[key] = np.array([_cellv(v) for v in o['buf']], dtype=dtype)
+        view = _BUF[key][::o['step']][:len(o['idx'])]
+        res = pd.Series(view, index=idx, copy=False)
+        if not np.shares_memory(res.values, _BUF[key]) or [_canon(x)[1] for x in view] != [_canon(_cellv(v))[1] for v in o['vals']]:
+            raise RuntimeError('harness: the operand is not the view of the buffer it is meant to be: %s' % (o,))
+        return res
     if o['k'] == 's':
         return pd.Series([_cellv(o['vals'][r]) for r in order], index=idx, dtype=dtype)
     return pd.DataFrame({c: [_cellv(o['vals'][r][j]) for r in order] for j, c in enumerate(o['cols'])}, index=idx, columns=list(o['cols']), dtype=dtype)
@@ -639,9 +742,18 @@ def _args(spec):
     return (a, b), list(lhs) + list(rhs), conts
 
 
+def _kw(spec):
+    """the policies that are written out in the call; one that is left out is the documented default 'ij' (and spec[...] says 'ij' for it)"""
+    omit = spec.get('omit') or ()
+    for k in omit:
+        if spec[k] != 'ij':
+            raise RuntimeError('harness: %s is left out of the call but the case expects %s' % (k, spec[k]))
+    return {k: spec[k] for k in ('join', 'columns') if k not in omit}
+
+
 def _invoke(what, f, args, kw, style):
     """the three ways of writing the same call"""
-    if style == 'pos':
+    if style == 'pos' and len(kw) == 2:
         return call(what, f, args[0], args[1] if len(args) > 1 else None, kw['join'], None, kw['columns'])
     if style == 'named':
         named = dict(a=args[0])
@@ -745,6 +857,10 @@ def f_pow(a, b):
         return NAN
 
 
+def _within_tolerance(a, b):
+    return not _isnan(a) and not _isnan(b) and a != b and abs(a - b) <= 1e-8 + 1e-5 * abs(b)
+
+
 def f_min(a, b):
     if _isnan(a) or _isnan(b):
         return NAN
@@ -793,12 +909,33 @@ def _np():
     return _NP[0]
 
 
+_UTC = {}
+
+
+def _utc_positions(axis, tz):
+    """the instant (as naive UTC) of every stamp of the axis read as wall-clock time in tz -> position; computed with zoneinfo, not with pandas"""
+    if (axis, tz) not in _UTC:
+        z = zoneinfo.ZoneInfo(tz)
+        d = {t.replace(tzinfo=z).astimezone(datetime.timezone.utc).replace(tzinfo=None): i for i, t in enumerate(AXES[axis])}
+        if len(d) != len(AXES[axis]):
+            raise RuntimeError('harness: two stamps of the axis are one instant in %s' % tz)
+        _UTC[(axis, tz)] = d
+    return _UTC[(axis, tz)]
+
+
 def _positions(index, what):
     pos = POSS[_AX[0]]
+    tz = _TZ[0]
+    if tz and len(index):
+        # the operands are zone-aware: so is the result, and it carries the same INSTANTS (an index rebuilt from .values is naive and shifted by the offset)
+        check(getattr(index, 'tz', None) is not None, '%s: every operand is zone-aware (%s), the result index is not: %s', what, tz, short(list(index), 200))
+        pos = _utc_positions(_AX[0], tz)
     out = []
     for t in list(index):
         try:
             key = t.to_pydatetime() if hasattr(t, 'to_pydatetime') else t
+            if tz:
+                key = key.astimezone(datetime.timezone.utc).replace(tzinfo=None)
             p = pos.get(key)
         except Exception:
             p = None
@@ -891,7 +1028,8 @@ def _desc_operand(o):
         days = ','.join(AXES[_AX[0]][i].strftime('%d') if _AX[0] == 'd' else _lab(i) for i in o['idx'])
         vals = '%s' % (o['vals'],)
     tags = ''.join([' unit=%s' % o['unit'] if o.get('unit') else '', ' rows handed over in the order %s' % _row_order(len(o['idx']), o.get('ord')) if _is_unsorted(o) else '',
-                    ' index-object#%s' % o['six'] if o.get('six') else '', ' the-same-object#%s' % o['obj'] if o.get('obj') else ''])
+                    ' index-object#%s' % o['six'] if o.get('six') else '', ' the-same-object#%s' % o['obj'] if o.get('obj') else '',
+                    ' view buf[::%s][:%s] of one %s-cell buffer' % (o['step'], len(o['idx']), len(o['buf'])) if o.get('buf') is not None and not _is_unsorted(o) else ''])
     if o['k'] == 's':
         return 'Series(%s @%s%s)' % (vals, days, tags)
     return 'Frame(%s %s @%s%s)' % (o['cols'], vals, days, tags)
@@ -905,6 +1043,10 @@ def _desc(spec, kw):
     if spec['rhs'] is not None:
         a += ', ' + side(spec['rhs'], spec['rhs_list'])
     k = ', '.join('%s=%r' % kv for kv in sorted(kw.items()))
+    if _TZ[0]:
+        k += ' [every index localized to %s]' % _TZ[0]
+    if _SESSION[0] is not None and _SESSION[0].get('#edits'):
+        k += ' [earlier in this session the caller wrote, in place, %s]' % '; '.join(_SESSION[0]['#edits'])
     style = {'pos': ' [written positionally: a, b, join, None, columns]', 'named': ' [operands by keyword a=, b=]'}.get(spec.get('style'), '')
     return short('%s(%s%s)%s' % (spec['op'], a, ', ' + k if k else '', style), 700)
 
@@ -1014,6 +1156,20 @@ def _classes(all_ops, extra, policies=()):
     if any(len(v) > 1 for v in distinct.values()):
         cls.append('shared_index_object')           # two different timeseries built on ONE index object
 
+    # ---- classes 21-29 of the brief
+    if _TZ[0] and ts:
+        cls.append('zone_aware_stamps')
+    if any(isinstance(v, float) and v in NEAR for o in all_ops for v in cells(o)):
+        cls.append('values_within_tolerance')
+    bufs = {}
+    for o in ts:
+        if o.get('buf') is not None and not _is_unsorted(o):
+            bufs.setdefault(json.dumps(o['buf']), set()).add(o['step'])
+    if any(len(v) > 1 for v in bufs.values()):
+        cls.append('same_buffer_other_strides')
+    if any(0 in o['cols'] for o in frames):
+        cls.append('falsy_column_label')            # the column label 0
+
     def ixid(o):
         return ('obj', json.dumps(o, sort_keys=True)) if o.get('obj') else ('six',) + _idx_key(o) if o.get('six') else None
     if len(ts) >= 3 and ixid(ts[0]) is not None and ixid(ts[0]) == ixid(ts[-1]) and any(set(o['idx']) != set(ts[0]['idx']) for o in ts[1:-1]):
@@ -1032,6 +1188,8 @@ def _special_classes(spec, cls):
         cls.append('scalar_list_as_long_as_the_series')
     if spec.get('special') in ('empty_lhs', 'empty_rhs'):
         cls.append('empty_list_companion')
+    if spec.get('omit'):
+        cls.append('policy_left_to_default')
     return cls
 
 
@@ -1041,7 +1199,7 @@ def run_arith(spec):
     spec = _norm(spec)
     op, join, columns = spec['op'], spec['join'], spec['columns']
     f = getattr(pyg_base, op)
-    kw = dict(join=join, columns=columns)
+    kw = _kw(spec)
     args, built, conts = _args(spec)
     before = _snapshot(built, conts)
     what = _desc(spec, kw)
@@ -1083,11 +1241,23 @@ def run_arith(spec):
             cls.append('zero_divisor_cell')
         if zero_scalar_div:
             cls.append('zero_scalar_divisor')
+        if _has_tiny_divisor(B):
+            cls.append('tiny_divisor_cell')      # 0 < |divisor| <= 1e-8
     if exp[0] == 'f' and not exp[1]:
         cls.append('no_common_column')
     if columns[0] == 'o' and 'differing_columns' in cls:
         cls.append('neutral_element_used')
     return dict(nt=nt, cls=cls)
+
+
+def _has_tiny_divisor(B):
+    def tiny(v):
+        return v is not ANY and not _isnan(v) and 0 < abs(v) <= 1e-8
+    if B[0] == 'c':
+        return tiny(B[1])
+    if B[0] == 's':
+        return any(tiny(v) for v in B[1].values())
+    return any(tiny(v) for row in B[2].values() for v in row.values())
 
 
 def _has_zero_divisor(B):
@@ -1106,7 +1276,7 @@ def run_cmp_pow(spec):
     spec = _norm(spec)
     op, join, columns = spec['op'], spec['join'], spec['columns']
     f = getattr(pyg_base, op)
-    kw = dict(join=join, columns=columns)
+    kw = _kw(spec)
     s2 = dict(op=op, lhs=[spec['a']], rhs=[spec['b']], lhs_list=False, rhs_list=False, style=spec.get('style'))
     args, built, conts = _args(s2)
     before = _snapshot(built, conts)
@@ -1125,6 +1295,9 @@ def run_cmp_pow(spec):
                 outcomes.add(bool(v))
         if len(outcomes) == 2:
             cls.append('both_outcomes')
+        near = m_bin(_model(spec['a']), _model(spec['b']), _within_tolerance, join, columns, ANY)
+        if any(v is True for v in (near[1].values() if near[0] == 's' else [x for row in near[2].values() for x in row.values()] if near[0] == 'f' else [near[1]])):
+            cls.append('compared_cells_within_tolerance')       # different values that np.isclose takes for equal, at one stamp
     return dict(nt=nt, cls=cls)
 
 
@@ -1136,7 +1309,7 @@ def run_minmax(spec):
     spec = _norm(spec)
     op, join, columns = spec['op'], spec['join'], spec['columns']
     f = getattr(pyg_base, op)
-    kw = dict(join=join, columns=columns)
+    kw = _kw(spec)
     args, built, conts = _args(spec)
     before = _snapshot(built, conts)
     what = _desc(spec, kw)
@@ -1209,6 +1382,68 @@ def run_agg(spec):
 
 # ----------------------------------------------------------------------------- sub-check: several calls on the same operand objects
 
+_EDIT_VALUES = {'f': [1.0, 'nan', 2.0, 0.0, -1.5, 2.5], 'i': [1, 0, 2, 5]}
+
+
+def _same_cell(a, b):
+    return (a == 'nan' and b == 'nan') or (a != 'nan' and b != 'nan' and a == b)
+
+
+def _edit_step(draw, pool, prev):
+    """one cell of one (non-empty) operand of the previous call gets another value of the operand's dtype; every pool entry that is this very object
+    (an equal spec is ONE object within a session) is replaced by the edited spec"""
+    cand = [i for i in prev[:2] if _n_rows(pool[i]) > 0] or [i for i in prev if _n_rows(pool[i]) > 0]
+    if not cand:
+        return None
+    p = draw(st.sampled_from(cand))
+    before = _expand(pool[p])
+    row = draw(st.integers(0, len(before['idx']) - 1))
+    col = draw(st.integers(0, len(before['cols']) - 1)) if before['k'] == 'f' else None
+    old = before['vals'][row][col] if col is not None else before['vals'][row]
+    values = _EDIT_VALUES[before['dt']]
+    k = draw(st.integers(0, len(values) - 1))
+    new = [v for v in values[k:] + values[:k] if not _same_cell(v, old)][0]
+    after = _edited(before, row, col, new)
+    key = json.dumps(before, sort_keys=True)
+    same = [i for i in range(len(pool)) if json.dumps(_expand(pool[i]), sort_keys=True) == key]
+    for i in same:
+        pool[i] = after
+    return dict(kind='edit', p=same, before=before, row=row, col=col, v=new)
+
+
+def _n_rows(o):
+    return len(o['idx']) if 'idx' in o else o['long']['n'] - len(o['long']['holes'])
+
+
+def _edited(before, row, col, v):
+    after = json.loads(json.dumps(before))
+    if col is None:
+        after['vals'][row] = v
+    else:
+        after['vals'][row][col] = v
+    return after
+
+
+def _apply_edit(e):
+    """the caller's own in-place write between two calls: the object stays, its content changes"""
+    before = _expand(e['before'])
+    after = _edited(before, e['row'], e['col'], e['v'])
+    cache = _SESSION[0]
+    key = json.dumps(before, sort_keys=True)
+    obj = cache.pop(key) if key in cache else _build_fresh(before)
+    pos = _row_order(len(before['idx']), before.get('ord')).index(e['row'])
+    was = _canon(obj)
+    if e['col'] is None:
+        obj.iloc[pos] = _cellv(e['v'])
+    else:
+        obj.iloc[pos, e['col']] = _cellv(e['v'])
+    now = _canon(_build_fresh(after))
+    if _canon(obj) != now or was == now:
+        raise RuntimeError('harness: the in-place edit did not produce the operand it describes: %s' % (e,))
+    cache[json.dumps(after, sort_keys=True)] = obj
+    cache.setdefault('#edits', []).append('%r into row %s%s of %s' % (_cellv(e['v']), e['row'], '' if e['col'] is None else ', column %r' % (before['cols'][e['col']],), _desc_operand(before)))
+
+
 @st.composite
 def _session_case(draw):
     """a pool of 3-4 Series (or frames over one column set) and 2-4 calls on ordered selections of them - the same objects every time -
@@ -1224,10 +1459,19 @@ def _session_case(draw):
         pool.append(_ts(draw, 'f', pool, ctx, list(draw(st.permutations(cols)))) if frames else _ts(draw, 's', pool, ctx))
     join0 = draw(_policy)
     calls, prev, prevcall = [], None, None
+    edited = False
     for _ in range(draw(st.integers(2, 4))):
         kind = draw(st.sampled_from(['arith', 'arith', 'arith', 'agg', 'agg', 'agg', 'minmax', 'cmp']))
         how = draw(st.sampled_from(['prefix', 'prefix', 'extend', 'free', 'same', 'container', 'container'])) if prev else 'free'
-        join = join0 if draw(st.integers(0, 3)) else draw(_policy)
+        if prev and draw(st.integers(0, 5)) == 5:
+            # between two calls the caller writes ONE cell of an operand of the previous call in place (same object, new content); what follows is judged by the new content
+            e = _edit_step(draw, pool, prev)
+            if e is not None:
+                calls.append(e)
+                prevcall, edited = None, True           # the lists of the earlier calls held the old content
+                how = draw(st.sampled_from(['same', 'same', 'prefix', 'extend', 'free']))
+        just_edited = bool(calls) and calls[-1]['kind'] == 'edit'
+        join = join0 if (just_edited or draw(st.integers(0, 3))) else draw(_policy)
         columns = draw(_policy)
         if how == 'container' and prevcall is not None and prevcall['call'].get('lhs_list') and all(o['k'] != 'c' for o in prevcall['call']['lhs']):
             # the previous call's list of operands is handed over again: the same list object (see _side)
@@ -1289,7 +1533,7 @@ def _session_case(draw):
                 c = dict(op=op, join=join, columns=columns, form='list', lhs=ops, rhs=None, lhs_list=True, rhs_list=False)
         calls.append(dict(kind=kind, sel=sel, lsel=lsel, call=c))
         prevcall = calls[-1]
-    return dict(calls=calls, axis=ctx['axis'])
+    return dict(calls=calls, axis=ctx['axis'], tz=ctx['tz'])
 
 
 def run_session(spec):
@@ -1298,9 +1542,14 @@ def run_session(spec):
     _SESSION[0] = {}
     try:
         rel = set()
+        steps = spec['calls']
+        spec = dict(spec, calls=[c for c in steps if c['kind'] != 'edit'])
         sels = [c['sel'] for c in spec['calls']]
         sub = []
-        for c in spec['calls']:
+        for c in steps:
+            if c['kind'] == 'edit':
+                _apply_edit(c)
+                continue
             sub.append({'arith': run_arith, 'agg': run_agg, 'minmax': run_minmax, 'cmp': run_cmp_pow}[c['kind']](c['call']))
         for a, b in zip(sels, sels[1:]):
             if a != b and (a[:len(b)] == b or b[:len(a)] == a):
@@ -1320,7 +1569,25 @@ def run_session(spec):
             cls.append('same_list_object_passed_again')
             if any(c.get('after_companion') for c in spec['calls']):
                 cls.append('list_first_with_companion_then_alone')
-        for lab in ('shared_index_object', 'scalar', 'long', 'mixed_index_units', 'unsorted_index', 'intraday_stamps', 'numeric_column_names'):
+        earlier, last, pending, used_again, same_again = set(), None, [], False, False
+        for c in steps:
+            if c['kind'] == 'edit':
+                if set(c['p']) & earlier:
+                    pending.append(c)
+                continue
+            for e in pending:
+                if set(e['p']) & set(c['sel']):
+                    used_again = True
+                    same_again = same_again or c['sel'] == last
+            pending = []
+            earlier |= set(c['sel'])
+            last = c['sel']
+        if used_again:
+            cls.append('operand_edited_in_place_between_calls')         # an operand of an earlier call, edited by the caller, is an operand of the next call
+            if same_again:
+                cls.append('same_operands_again_after_an_edit')
+        for lab in ('shared_index_object', 'scalar', 'long', 'mixed_index_units', 'unsorted_index', 'intraday_stamps', 'numeric_column_names', 'zone_aware_stamps',
+                    'values_within_tolerance'):
             if any(lab in (r.get('cls') or ()) for r in sub):
                 cls.append(lab)
         return dict(nt=bool(rel - {'same_operands_again'}), cls=cls)
@@ -1357,18 +1624,26 @@ def _narrow_intermediate(spec):
 KNOWN = {'narrow_intermediate': _narrow_intermediate}
 
 
+_GEN2_RULE = ('Classes 21-29: every index of a case zone-aware in one zone (result zone-aware, same instants), cells within np.isclose tolerances of one another, two Series as views of one buffer '
+              'with other strides, policies left out (= ij), the column label 0, a few percent each. ')
+
 _COMMON_RULE = ('operands: float/int Series and 2-3 column frames (names over {a,b,c,d}, {a,ab,b,abc} or {1,0,2,3}, free column order), scalars incl. 0 and NaN (Python or numpy); short indices on 12 stamps, '
                 'a quarter of the cases with long operands (64/65/100/128/300 stamps, few distinct values) next to short ones; daily, 12-hourly or 1us-apart stamps, mixed index resolutions, unsorted short '
                 'operands, shared index objects and one object in two places in a few percent of the cases each; policies spelled ij/oj/inner/outer, calls written with keywords, positionally or with a=, b=; '
-                'operands and the lists holding them must be unchanged after the call. ')
+                'operands and the lists holding them must be unchanged after the call. ' + _GEN2_RULE)
 
 _NEW_FLOORS = {'numpy_scalar': 0.027, 'mixed_index_units': 0.012, 'unsorted_index': 0.01, 'intraday_stamps': 0.08, 'stamps_1us_apart': 0.035, 'same_object_twice': 0.02,
                'shared_index_object': 0.011, 'numeric_column_names': 0.024, 'call_written_positionally': 0.03, 'operands_by_keyword': 0.03}
 
 
+# classes 21-29 of the brief (second generalisation pass); floors at about a third of the rate observed over seeds 1-3
+_GEN2_FLOORS = {'zone_aware_stamps': 0.02, 'values_within_tolerance': 0.022, 'same_buffer_other_strides': 0.004, 'falsy_column_label': 0.015, 'policy_left_to_default': 0.03}
+
+
 def _floors(old, **more):
     d = dict(old)
     d.update(_NEW_FLOORS)
+    d.update(_GEN2_FLOORS)
     d.update(more)
     return {k: v for k, v in d.items() if v is not None}
 
@@ -1383,34 +1658,38 @@ SUBS = [
                                          'series_with_frame': 0.1, 'scalar': 0.15, 'empty_operand': 0.04, 'disjoint_indices': 0.05,
                                          'long': 0.06, 'long_with_short': 0.02, 'long_with_long': 0.02, 'fingerprint_indices': 0.03, 'prefix_column_names': 0.05,
                                          'same_columns_other_order': 0.015, 'falsy_scalar': 0.03, 'inexact_values': 0.08, 'spelled_out_policy': 0.2,
-                                         'empty_in_the_middle': 0.004, 'zero_scalar_divisor': 0.005},
+                                         'empty_in_the_middle': 0.004, 'zero_scalar_divisor': 0.005, 'tiny_divisor_cell': 0.005},
                                         **{'int_beyond_2**53': 0.025, 'same_object_twice': 0.035, 'numeric_column_names': 0.04, 'mixed_index_units': 0.02, 'unsorted_index': 0.014,
-                                           'scalar_list_as_long_as_the_series': 0.007, 'empty_list_companion': 0.009})),
+                                           'scalar_list_as_long_as_the_series': 0.007, 'empty_list_companion': 0.009,
+                                           'zone_aware_stamps': 0.027, 'values_within_tolerance': 0.028, 'same_buffer_other_strides': 0.012, 'falsy_column_label': 0.027})),
     Sub('cmp_pow', lambda tier: _cmp_case(), run_cmp_pow, quick=1000, thorough=10000,
         rule='pow_ (exponents 0..3, 0.5, NaN) and gt_/ge_/lt_/le_ on two operands; ' + _COMMON_RULE + 'int64 cells beyond 2**53 for the comparisons under the inner index policy. '
              'oracle: the same alignment model with math.pow / Python comparisons; cells of one-sided columns under columns=oj are not judged. non-trivial as in arith',
         floor=0.2, class_floors=_floors({'both_outcomes': 0.15, 'partial_overlap': 0.2, 'op=pow_': 0.2, 'long': 0.06, 'fingerprint_indices': 0.01, 'spelled_out_policy': 0.2},
-                                        **{'int_beyond_2**53': 0.03, 'numeric_column_names': 0.035})),
+                                        **{'int_beyond_2**53': 0.03, 'numeric_column_names': 0.035, 'compared_cells_within_tolerance': 0.01, 'values_within_tolerance': 0.028, 'policy_left_to_default': 0.035})),
     Sub('minmax', lambda tier: _minmax_case(), run_minmax, quick=1000, thorough=10000,
         rule='min_/max_ on 2-4 operands (frames of one case have one column set), forms (a,b), ([..]), ([..],[..]), ([..],[]); ' + _COMMON_RULE + 'int64 cells beyond 2**53 under the inner index policy. '
              'oracle: NaN-propagating min/max on the aligned cells. non-trivial = partially overlapping indices with a NaN or 0 inside the overlap',
         floor=0.2, class_floors=_floors({'partial_overlap': 0.25, 'series_with_frame': 0.1, 'long': 0.06, 'fingerprint_indices': 0.03, 'same_columns_other_order': 0.05,
                                          'spelled_out_policy': 0.2},
                                         **{'int_beyond_2**53': 0.023, 'mixed_index_units': 0.018, 'unsorted_index': 0.015, 'same_object_twice': 0.029, 'same_object_first_and_last': 0.003,
-                                           'first_and_last_on_one_index_object_other_between': 0.0015, 'shared_index_object': 0.022, 'empty_list_companion': 0.008})),
+                                           'first_and_last_on_one_index_object_other_between': 0.0015, 'shared_index_object': 0.022, 'empty_list_companion': 0.008,
+                                           'zone_aware_stamps': 0.03, 'same_buffer_other_strides': 0.018, 'falsy_column_label': 0.022})),
     Sub('session', lambda tier: _session_case(), run_session, quick=800, thorough=8000,
         rule='a pool of 3-4 Series (a quarter of the cases: frames over one column set; one session in eight with long operands) built ONCE, then 2-4 calls of add_/sub_/mul_/div_/min_/max_/gt_/ge_/lt_/le_/'
              'df_sum/df_mean/df_count on ordered selections of those same objects (half of them a prefix or an extension of the previous selection, a scalar among them now and then; two in seven '
              'hand over the very list object of the previous call, first with a companion and then alone or the other way round), mostly under one join policy; every call is judged by the oracle '
-             'of its own sub-check (pointwise model on the aligned operands, a list by its original content), so a result may not depend on what was computed before. non-trivial = two consecutive calls whose operand lists are prefix-related',
+             'of its own sub-check (pointwise model on the aligned operands, a list by its original content), so a result may not depend on what was computed before; one step in six is preceded by the caller '
+             'writing one cell of an operand of the previous call in place (same object, new content - the calls that follow are judged by the new content); zone-aware and within-tolerance cases as in the other sub-checks. non-trivial = two consecutive calls whose operand lists are prefix-related',
         floor=0.2, class_floors={'operands_prefix_of_previous_call': 0.15, 'operands_extend_previous_call': 0.1, 'aggregation_and_operator_share_operands': 0.2, 'one_join_policy_throughout': 0.2,
                                  'same_list_object_passed_again': 0.18, 'list_first_with_companion_then_alone': 0.017, 'comparison_among_the_calls': 0.07, 'scalar': 0.04,
-                                 'shared_index_object': 0.045, 'mixed_index_units': 0.03, 'unsorted_index': 0.02, 'intraday_stamps': 0.085, 'long': 0.03, 'numeric_column_names': 0.012}),
+                                 'shared_index_object': 0.045, 'mixed_index_units': 0.03, 'unsorted_index': 0.02, 'intraday_stamps': 0.085, 'long': 0.03, 'numeric_column_names': 0.012,
+                                 'operand_edited_in_place_between_calls': 0.06, 'same_operands_again_after_an_edit': 0.03, 'zone_aware_stamps': 0.02, 'values_within_tolerance': 0.03}),
     Sub('agg', lambda tier: _agg_case(), run_agg, quick=1000, thorough=10000,
         rule='df_sum/df_mean/df_count on 2-4 Series or 2-4 multi-column frames (column sets may differ), default policies left out or spelled out; ' + _COMMON_RULE + 'oracle: union index, '
              'sum/mean over the non-NaN operands, count of them, NaN (count 0) where none. non-trivial as in arith',
         floor=0.3, class_floors=_floors({'cell_without_data': 0.3, 'cell_with_data': 0.5, 'differing_columns': 0.1, 'long': 0.06, 'fingerprint_indices': 0.05},
-                                        numpy_scalar=None, mixed_index_units=0.03, unsorted_index=0.023, stamps_1us_apart=0.04, same_object_twice=0.035, same_object_first_and_last=0.015,
+                                        numpy_scalar=None, policy_left_to_default=None, mixed_index_units=0.03, unsorted_index=0.023, stamps_1us_apart=0.04, same_object_twice=0.035, same_object_first_and_last=0.015,
                                         first_and_last_on_one_index_object_other_between=0.012, shared_index_object=0.03, call_written_positionally=0.027, default_policies_spelled_out=0.065,
-                                        empty_list_companion=0.012)),
+                                        empty_list_companion=0.012, values_within_tolerance=0.03, same_buffer_other_strides=0.011, falsy_column_label=0.025)),
 ]
